@@ -9,6 +9,55 @@
 #include <thread>
 #include <vector>
 
+#ifdef NANO_VERIF
+#include <atomic>
+
+///
+/// \brief verification hooks (compiled only with -DNANO_VERIF): the thread pool reports its synchronization events
+///     to an optional observer installed by a test harness; the observer may also delay the calling thread.
+///
+namespace nano::verif
+{
+enum class pool_event : int
+{
+    pre_lock = 0,  ///< about to acquire the queue's mutex
+    lock_acquired, ///< mutex acquired
+    lock_release,  ///< about to release the mutex (end of the critical section)
+    push,          ///< a = number of tasks appended (under the lock)
+    notify_one,
+    notify_all,
+    pred,          ///< worker evaluated the wait predicate (under the lock): a = result, b = worker index
+    pop,           ///< worker took the front task: b = worker index
+    clear,         ///< worker saw stop and dropped a = number of queued tasks, b = worker index
+    run_begin,     ///< worker starts executing a task: b = worker index
+    run_end,
+    worker_exit,   ///< b = worker index
+    stop_set,
+    join_begin,    ///< a = thread index
+    join_end,
+    map_enter,     ///< a = number of elements, b = chunk size (0 for the per-element overload)
+    map_parallel,  ///< the tasks of this call go through the queue
+    block_begin,
+    map_return
+};
+
+using pool_hook_t = void (*)(int event, const void* queue, long long a, long long b);
+
+NANO_PUBLIC std::atomic<pool_hook_t>& pool_hook();
+
+inline void pool_emit(const pool_event event, const void* queue, const long long a = 0, const long long b = 0)
+{
+    if (const auto hook = pool_hook().load(std::memory_order_acquire); hook != nullptr)
+    {
+        hook(static_cast<int>(event), queue, a, b);
+    }
+}
+} // namespace nano::verif
+#define NANO_VERIF_POOL(event, queue, a, b) ::nano::verif::pool_emit(::nano::verif::pool_event::event, queue, a, b)
+#else
+#define NANO_VERIF_POOL(event, queue, a, b) ((void)0)
+#endif
+
 namespace nano::parallel
 {
 using future_t = std::shared_future<void>;
@@ -34,10 +83,15 @@ public:
         auto task   = task_t(std::forward<tfunction>(f));
         auto future = task.get_future();
         {
+            NANO_VERIF_POOL(pre_lock, this, 0, 0);
             const std::scoped_lock lock(m_mutex);
+            NANO_VERIF_POOL(lock_acquired, this, 0, 0);
             m_tasks.emplace_back(std::move(task));
+            NANO_VERIF_POOL(push, this, 1, 0);
+            NANO_VERIF_POOL(lock_release, this, 0, 0);
         }
         m_condition.notify_one();
+        NANO_VERIF_POOL(notify_one, this, 0, 0);
         return future;
     }
 
@@ -50,6 +104,7 @@ public:
         auto task   = task_t(std::forward<tfunction>(f));
         auto future = task.get_future();
         m_tasks.emplace_back(std::move(task));
+        NANO_VERIF_POOL(push, this, 1, 0);
         return future;
     }
 
@@ -179,6 +234,7 @@ public:
     template <class tsize, class toperator, std::enable_if_t<std::is_integral_v<tsize>, bool> = true>
     void map(tsize elements, const toperator& op, bool raise = true)
     {
+        NANO_VERIF_POOL(map_enter, &m_queue, static_cast<long long>(elements), 0);
         if (size() == 1 || elements <= 1)
         {
             for (tsize index = 0; index < elements; ++index)
@@ -188,19 +244,26 @@ public:
         }
         else
         {
+            NANO_VERIF_POOL(map_parallel, &m_queue, 0, 0);
             section_t section;
             section.reserve(static_cast<size_t>(elements));
             {
+                NANO_VERIF_POOL(pre_lock, &m_queue, 0, 0);
                 const std::scoped_lock lock(m_queue.m_mutex);
+                NANO_VERIF_POOL(lock_acquired, &m_queue, 0, 0);
                 for (tsize index = 0; index < elements; ++index)
                 {
                     section.emplace_back(m_queue.enqueue_no_lock([op, index](const size_t tnum) { op(index, tnum); }));
                 }
+                NANO_VERIF_POOL(lock_release, &m_queue, 0, 0);
             }
             m_queue.m_condition.notify_all();
+            NANO_VERIF_POOL(notify_all, &m_queue, 0, 0);
 
+            NANO_VERIF_POOL(block_begin, &m_queue, 0, 0);
             section.block(raise);
         }
+        NANO_VERIF_POOL(map_return, &m_queue, 0, 0);
     }
 
     ///
@@ -215,6 +278,7 @@ public:
     {
         assert(chunksize >= tsize(1));
 
+        NANO_VERIF_POOL(map_enter, &m_queue, static_cast<long long>(elements), static_cast<long long>(chunksize));
         if (size() == 1 || chunksize >= elements)
         {
             for (tsize begin = 0; begin < elements; begin += chunksize)
@@ -224,21 +288,28 @@ public:
         }
         else
         {
+            NANO_VERIF_POOL(map_parallel, &m_queue, 0, 0);
             section_t section;
             section.reserve(static_cast<size_t>((elements + chunksize - 1) / chunksize));
             {
+                NANO_VERIF_POOL(pre_lock, &m_queue, 0, 0);
                 const std::scoped_lock lock(m_queue.m_mutex);
+                NANO_VERIF_POOL(lock_acquired, &m_queue, 0, 0);
                 for (tsize begin = 0; begin < elements; begin += chunksize)
                 {
                     const auto end = std::min(begin + chunksize, elements);
                     section.emplace_back(
                         m_queue.enqueue_no_lock([op, begin, end](const size_t tnum) { op(begin, end, tnum); }));
                 }
+                NANO_VERIF_POOL(lock_release, &m_queue, 0, 0);
             }
             m_queue.m_condition.notify_all();
+            NANO_VERIF_POOL(notify_all, &m_queue, 0, 0);
 
+            NANO_VERIF_POOL(block_begin, &m_queue, 0, 0);
             section.block(raise);
         }
+        NANO_VERIF_POOL(map_return, &m_queue, 0, 0);
     }
 
 private:
